@@ -153,25 +153,30 @@ func runW2Auto(r *Result, dp *DriverPool, cs w2Case) {
 	}
 	var goCalls, calls []string
 	total := 0
-	for _, op := range cs.Hist {
-		var res callRes
-		switch op.Kind {
-		case "write":
-			p := cs.data(op)
-			total += len(p)
-			res = guard(func() (int, error) { return w.Write(p) })
-			calls = append(calls, "W"+hxe(p))
-		case "flush":
-			res = guard(func() (int, error) { return 0, w.Flush() })
-			calls = append(calls, "F")
-		case "close":
-			res = guard(func() (int, error) { return 0, w.Close() })
-			calls = append(calls, "C")
+	if !withTimeout(180*time.Second, func() {
+		for _, op := range cs.Hist {
+			var res callRes
+			switch op.Kind {
+			case "write":
+				p := cs.data(op)
+				total += len(p)
+				res = guard(func() (int, error) { return w.Write(p) })
+				calls = append(calls, "W"+hxe(p))
+			case "flush":
+				res = guard(func() (int, error) { return 0, w.Flush() })
+				calls = append(calls, "F")
+			case "close":
+				res = guard(func() (int, error) { return 0, w.Close() })
+				calls = append(calls, "C")
+			}
+			goCalls = append(goCalls, fmt.Sprintf("%d:%s@%d", res.N, w2ErrName(res), buf.Len()))
+			if res.Err != "nil" && w2ErrName(res) != "closed" {
+				break
+			}
 		}
-		goCalls = append(goCalls, fmt.Sprintf("%d:%s@%d", res.N, w2ErrName(res), buf.Len()))
-		if res.Err != "nil" && w2ErrName(res) != "closed" {
-			break
-		}
+	}) {
+		r.Violate("counterexample", fmt.Sprintf("write-timeout matcher=%d dict=%d buf=%d", cs.Matcher, cs.DictCap, cs.BufSize), cs, "the writer did not finish the history in 180 s")
+		return
 	}
 	rep, err := dp.Ask(fmt.Sprintf("w2auto %d %d %d %d %s", cs.Matcher, (cs.PB*5+cs.LP)*9+cs.LC, cs.DictCap, cs.BufSize, strings.Join(calls, " ")))
 	if err != nil {
